@@ -630,7 +630,161 @@ def run_handler(c):
     return r, hits, tags
 
 
-RUNNERS = {"validator": run_validator, "default": run_default, "property": run_property,
+# ------------------------------------------------------------------ 6. user filter raising during observe()
+
+def run_observe_filter(c):
+    """observe() with an expression of two graphs: trait("a") | match(user_filter).  The user filter raises at its
+    k-th call: the registration decides the outcome, so observe() must raise and leave NOTHING attached (also
+    not the graph registered before the failing one); a later registration behaves as on a fresh object."""
+    from traits.api import HasTraits, Int
+    from traits.observation.api import trait, match
+    fault = Fault()
+    calls = []
+
+    class O(HasTraits):
+        a = Int(0)
+        b = Int(0)
+        c = Int(0)
+
+    def filt(name, ctrait):
+        fault.tick()
+        return name in ("b", "c")
+
+    def handler(event):
+        calls.append((event.name, event.old, event.new))
+
+    def expr():
+        e = trait("a") | match(filt) if c.get("order", 0) == 0 else match(filt) | trait("a")
+        return [trait("c"), e] if c.get("list") else e
+    hits, tags = [], set()
+
+    def play(obj, faulted):
+        out = []
+        if faulted:
+            fault.arm(c["k"], c["exc"])
+            try:
+                obj.observe(handler, expr())
+                out.append("ok")
+            except BaseException as ex:
+                out.append("err " + S.exc_name(ex))
+            out.append(fault.fired)
+            fault.disarm()
+            del calls[:]
+            obj.a, obj.b, obj.c = 1, 2, 3
+            out.append(list(calls))
+        else:
+            obj.a, obj.b, obj.c = 1, 2, 3      # the twin goes through the same values, with nothing attached
+        # the rest: identical for the faulted object and the twin
+        del calls[:]
+        obj.observe(handler, expr())
+        obj.a, obj.b = 7, 8
+        out.append(sorted(calls))
+        del calls[:]
+        obj.observe(handler, expr(), remove=True)
+        obj.a, obj.b, obj.c = 9, 10, 11
+        out.append(list(calls))
+        return out
+    f = play(O(), True)
+    r, fired, after = f[0], f[1], f[2]
+    sg = "observe-filter"
+    if fired:
+        tags.add("fired:observe-filter:" + c["exc"])
+        if not r.startswith("err"):
+            hits.append(_hit("callback-failure-swallowed:" + sg, "observe() succeeded although the user filter raised"))
+        elif r.split()[1] != c["exc"]:
+            hits.append(_hit("callback-exception-changed:" + sg, "injected %s surfaced as %s" % (c["exc"], r)))
+        if after:
+            hits.append(_hit("failed-op-mutated:" + sg, "the handler is attached although observe() raised", calls=after))
+        t = play(O(), False)
+        if f[3:] != t:
+            hits.append(_hit("twin-differs:" + sg, "registration / removal after the failed observe() differ from a fresh object",
+                             got=repr(f[3:]), twin=repr(t)))
+    return r, hits, tags
+
+
+# ------------------------------------------------------------------ 7. default raising while the legacy listener re-hooks a chain
+
+def run_legacy_chain(c):
+    """root.on_trait_change(h, 'child:pet:name'); assigning a child whose `_pet_default` raises while the library
+    hooks the chain: the library's own listener is a change handler (the assignment completes), and afterwards
+    everything behaves as with a child whose default never raised — in particular a replaced child is fully unhooked."""
+    from traits.api import HasTraits, Instance, Str
+    fault = Fault()
+    calls = []
+
+    class Pet(HasTraits):
+        name = Str("p")
+
+    class Child(HasTraits):
+        pet = Instance(Pet)
+
+        def _pet_default(self):
+            fault.tick()
+            return Pet()
+
+    class Root(HasTraits):
+        child = Instance(Child)
+
+    def handler(obj, name, old, new):
+        calls.append((name, old, new))
+    hits, tags = [], set()
+    sep = c.get("sep", ":")
+    pattern = "child" + sep + "pet" + sep + "name"
+
+    def play(faulted):
+        root = Root()
+        root.on_trait_change(handler, pattern)
+        c1, c2 = Child(), Child()
+        if faulted:
+            fault.arm(0, c["exc"])
+        try:
+            root.child = c1
+            r = "ok"
+        except BaseException as ex:
+            r = "err " + S.exc_name(ex)
+        fired = fault.fired
+        fault.disarm()
+        del calls[:]
+        out = []
+        c1.pet = Pet()                   # explicit value: no default needed from here on
+        c1.pet.name = "x"
+        out.append(("hooked-later", len(calls)))
+        del calls[:]
+        root.child = c2
+        del calls[:]
+        c1.pet.name = "y"                # c1 is detached: must be silent
+        c1.pet = Pet()
+        out.append(("detached", list(calls)))
+        del calls[:]
+        c2.pet.name = "z"
+        out.append(("reachable", [n for n, _, _ in calls]))
+        del calls[:]
+        root.on_trait_change(handler, pattern, remove=True)
+        c2.pet.name = "w"
+        out.append(("removed", list(calls)))
+        return r, fired, out
+    _silence()
+    try:
+        r, fired, out = play(True)
+        sg = "legacy-chain-default"
+        if fired:
+            tags.add("fired:legacy-chain-default:" + c["exc"])
+            if r != "ok":
+                hits.append(_hit("handler-exception-escaped:" + sg, "the assignment raised: " + r))
+            d = dict(out)
+            if d["detached"]:
+                hits.append(_hit("detached-object-still-hooked:" + sg, "changes below a replaced child still call the handler", calls=repr(d["detached"])))
+            if d["removed"]:
+                hits.append(_hit("removed-registration-still-called:" + sg, "handler called after remove=True", calls=repr(d["removed"])))
+            _, _, tout = play(False)
+            if dict(tout)["reachable"] != d["reachable"] or dict(tout)["removed"] != d["removed"] or dict(tout)["detached"] != d["detached"]:
+                hits.append(_hit("twin-differs:" + sg, "behaviour after the failed hook-up differs from a fault-free twin", got=repr(out), twin=repr(tout)))
+    finally:
+        _unsilence()
+    return r, hits, tags
+
+
+RUNNERS = {"observe-filter": run_observe_filter, "legacy-chain": run_legacy_chain, "validator": run_validator, "default": run_default, "property": run_property,
            "adapter": run_adapter, "handler": run_handler, "adapter-trait": run_adapter_trait,
            "property-notify": run_property_notify}
 
@@ -685,6 +839,10 @@ def generate(rng, n, excs):
             c = {"scalar": "property-notify", "api": rng.choice(["observe", "depends_on"]), "warm": rng.choice([0, 1, 1]),
                  "fail_at": rng.randint(1, 4), "values": [rng.choice([2, 3, 5, 7, 8]) for _ in range(rng.randint(2, 4))],
                  "exc": exc}
+        elif r < 0.95:
+            c = {"scalar": "observe-filter", "k": rng.randint(0, 5), "order": rng.randint(0, 1), "list": rng.randint(0, 1), "exc": exc}
+        elif r < 0.97:
+            c = {"scalar": "legacy-chain", "sep": rng.choice([":", "."]), "exc": exc}
         else:
             c = {"scalar": "handler", "site": rng.choice(["static", "dynamic", "observe"]), "order": rng.randint(0, 3), "exc": exc}
         yield "#" + json.dumps(c, separators=(",", ":"))
